@@ -385,6 +385,49 @@ def check(an, rep, tier):
             'the greedy additions start')
     from .. import rules_proto as _RPZ
     _RPZ.check_none_vs_zero(prog, rep, modules={'maxvol'})
+    # --- P-converged: the swap loop of maxvol is left before its iteration
+    # limit only when the largest modulus of B is within the accuracy e (any
+    # other way out -- an extra disjunct in the stop test, a second break --
+    # returns a B with max|B| > e although the limit was not hit)
+    fmv = prog.func('maxvol.maxvol')
+    e_par = fmv.params[1] if len(fmv.params) > 1 else 'e'
+    from .. import rules_proto as _RPc
+
+    def _atom(t):
+        if isinstance(t, ast.Compare) and len(t.ops) == 1:
+            l, op, r = t.left, t.ops[0], t.comparators[0]
+            if isinstance(op, (ast.LtE, ast.Lt)) and \
+                    isinstance(r, ast.Name) and r.id == e_par:
+                return ('T', True)
+            if isinstance(op, (ast.GtE, ast.Gt)) and \
+                    isinstance(l, ast.Name) and l.id == e_par:
+                return ('T', True)
+            if isinstance(op, (ast.Gt,)) and \
+                    isinstance(r, ast.Name) and r.id == e_par:
+                return ('T', False)
+            if isinstance(op, (ast.Lt,)) and \
+                    isinstance(l, ast.Name) and l.id == e_par:
+                return ('T', False)
+        return None
+    for loop in [n_ for n_ in ast.walk(fmv.node)
+                 if isinstance(n_, (ast.For, ast.While))]:
+        for b in [n_ for n_ in ast.walk(loop)
+                  if isinstance(n_, (ast.Break, ast.Return))]:
+            gs = _RPc.norm_guards(prog, fmv, b)
+            ent = paths.entails(gs, _atom, lambda a: a['T'])
+            rep.add('P-converged', 'maxvol.maxvol', 'the swap loop is left '
+                    'early only with max|B| <= %s (line %d)'
+                    % (e_par, b.lineno),
+                    'ok' if ent is True else ('violation' if ent is False
+                                              else 'unknown'),
+                    '' if ent is True else 'this way out of the swap loop '
+                    'does not imply |B[i, j]| <= %s for the entry of largest '
+                    'modulus (guards: %s): the returned B can exceed the '
+                    'accuracy although the iteration limit was not hit'
+                    % (e_par, '; '.join('%s is %s' % (paths.src(mod, t), p)
+                                        for t, p in gs) or 'none'),
+                    line=b.lineno, file=fmv.module.path)
+    rep.floor('P-converged', 1, 'stop test of the swap loop')
     rep.floor('S-summary', 1, 'summary conformance (maxvol)')
     rep.floor('P-domain', 9, 'rejections')
     rep.floor('P-pair', 2, 'select / mask pairing')
